@@ -60,6 +60,24 @@ fn word_for_row(row: &[i64], style: usize, rng: &mut Rng) -> Word {
     w
 }
 
+/// A panic inside abelian_invariants. The isize overflow of the elimination is a KNOWN FINDING that is
+/// identified by its call site (DESIGN.md 12.3): such violations are keyed on `file:line` only (the
+/// failing presentation goes into `observed`), so that known_findings.txt can list the call sites;
+/// every other panic is keyed on the exact input as usual.
+fn report_panic(ctx: &mut Ctx, p: &crate::monitor::PanicInfo, input: Value) {
+    if p.msg.contains("overflow") && p.short_loc().starts_with("src/fpgroups/invariants.rs:") {
+        ctx.violation(
+            "isize-overflow-in-diagonalisation",
+            "abelian_invariants",
+            json!({"call_site": p.short_loc()}),
+            json!({"panic": p.msg, "presentation": input}),
+            "the invariant factors for any list of relators (no arithmetic overflow)",
+        );
+    } else {
+        ctx.violation(&format!("panic@{}", p.short_loc()), "abelian_invariants", input, p.to_json(), "no panic on an in-domain input");
+    }
+}
+
 fn expected(n: usize, rels: &[Word]) -> Vec<BigInt> {
     snf::abelian_invariants_of_presentation(n, rels)
 }
@@ -84,9 +102,12 @@ pub fn judge(ctx: &mut Ctx, n: usize, rels: &[Word], variants: bool, use_minors:
     let fw = to_freewords(rels);
     let r = observe(|| abelian_invariants(n, fw.iter()));
     ctx.eval();
-    let got = match ctx.no_panic("abelian_invariants", input, r) {
-        Some(g) => g,
-        None => return,
+    let got = match r {
+        Ok(g) => g,
+        Err(p) => {
+            report_panic(ctx, &p, input());
+            return;
+        }
     };
     if to_big(&got) != want {
         ctx.violation(
@@ -167,7 +188,14 @@ pub fn judge(ctx: &mut Ctx, n: usize, rels: &[Word], variants: bool, use_minors:
         ctx.eval();
         ctx.count(&format!("variant.{}", name));
         let vin = || json!({"nr_gens": n2, "relators": rs, "variant": name, "of": rels});
-        if let Some(g) = ctx.no_panic("abelian_invariants", vin, r) {
+        let g = match r {
+            Ok(g) => Some(g),
+            Err(p) => {
+                report_panic(ctx, &p, vin());
+                None
+            }
+        };
+        if let Some(g) = g {
             if to_big(&g) != want {
                 ctx.violation(
                     &format!("not-invariant-under-{}", name),
